@@ -32,7 +32,6 @@ func init() {
 func RegisterDecorationName(name string, decor Decoration) {
 	registry.Lock()
 	registry.table[name] = decor
-	verifEvent("register", name)
 	registry.Unlock()
 }
 
@@ -48,7 +47,6 @@ func RegisteredDecorationNames() []string {
 		i++
 	}
 	sort.Strings(a)
-	verifEvent("list", "")
 	return a
 }
 
@@ -58,7 +56,6 @@ func RegisteredDecorationNames() []string {
 func Named(n string) Decoration {
 	registry.Lock()
 	d, ok := registry.table[n]
-	verifEvent("named", n)
 	registry.Unlock()
 	if ok {
 		return d
